@@ -15,6 +15,9 @@
 (*   openat(bucket, O_CREAT|O_APPEND) ok     OpenBucketW(p)                *)
 (*   write on the bucket (whole record)      AppendRecord(p)               *)
 (*   unlink(content) by remove_hash          UnlinkContent(p)              *)
+(*   remove_fully: open(bucket) / unlink(content) / unlink(bucket)         *)
+(*                     RfLookup / RfUnlinkContent / RfUnlinkBucket         *)
+(*   clear: first call / every unlink / result   ClearScan/ClearStep/ClearDone *)
 (*   symlinkat(target, content) by link_to   SymlinkContent(p)             *)
 (*   a faulted / failing effect call         Fault(p)                      *)
 (*   crash                                   Crash                         *)
@@ -27,7 +30,7 @@
 (* are decided by TraceFS / SerialAPI): they finish with a skip.           *)
 (* A rejection is reported with the line; the runner classifies it.        *)
 (***************************************************************************)
-EXTENDS CacacheFS, Json, IOUtils
+EXTENDS CacacheFSBulk, Json, IOUtils
 
 Rec2 == ndJsonDeserialize(IOEnv.TRACE)
 N2   == Len(Rec2)
@@ -43,7 +46,7 @@ TIsEmpty(d) == d = "empty"
 VARIABLE l
 E == Rec2[l]
 
-t2vars == <<vars, l>>
+t2vars == <<bvars, l>>
 
 (* ---- observed projection in the vocabulary of CacacheFS ---------------- *)
 
@@ -78,7 +81,7 @@ TmpAgrees(p, n) ==
 
 (* ---- steps ---------------------------------------------------------------- *)
 
-T2Init == Init /\ l = 2
+T2Init == BInit /\ l = 2
 
 \* begin: a warm cache is adopted as the starting disk state of the specification
 T2Begin ==
@@ -94,11 +97,14 @@ T2Begin ==
     /\ seen' = [p \in Procs |-> <<>>] /\ fdc' = [p \in Procs |-> NoFile]
     /\ acc' = [p \in Procs |-> {}] /\ todo' = [p \in Procs |-> {}]
     /\ crashed' = FALSE /\ nfaults' = 0 /\ nstarts' = 0 /\ log' = <<>>
+    /\ bgen' = [k \in Keys |-> 0] /\ wgen' = [p \in Procs |-> 0]
+    /\ tgone' = [p \in Procs |-> FALSE]
+    /\ csnap' = [p \in Procs |-> [c |-> {}, b |-> {}, t |-> {}]]
     /\ l' = l + 1
 
 T2Spawn ==
     /\ l <= N2 /\ E.ev = "spawn"
-    /\ Start(E.p, E.o)
+    /\ BStart(E.p, E.o)
     /\ l' = l + 1
 
 IsReaderOp(o) == o.op \in {"read", "read_hash", "metadata", "exists", "list"}
@@ -107,25 +113,38 @@ IsReaderOp(o) == o.op \in {"read", "read_hash", "metadata", "exists", "list"}
 \* file fullness of the process is adopted
 Noise(p, e) ==
     /\ UNCHANGED <<cf, bex, bk, pc, op, res, seen, fdc, acc, todo, crashed, nfaults, nstarts, log>>
+    /\ NewUnch
     /\ tmpf' = [tmpf EXCEPT ![p] = IF e.tmpfull = 0 - 1 THEN NoFile
                                     ELSE IF tmpf[p] = NoFile THEN [d |-> op[p].d, n |-> e.tmpfull]
                                     ELSE [tmpf[p] EXCEPT !.n = e.tmpfull]]
 
 Named(p, e) ==
-    \/ (e.cls = "create_tmp" /\ CreateTmp(p))
-    \/ (e.cls = "write_tmp" /\ WriteTmp(p))
-    \/ (e.cls = "publish" /\ Publish(p))
-    \/ (e.cls = "open_bucket_w" /\ OpenBucketW(p))
-    \/ (e.cls = "append" /\ AppendRecord(p))
-    \/ (e.cls = "unlink_content" /\ UnlinkContent(p))
-    \/ (e.cls = "symlink" /\ SymlinkContent(p))
-    \/ (e.cls = "failed_effect" /\ Fault(p))
+    \/ (e.cls = "create_tmp" /\ CreateTmp(p) /\ NewUnch)
+    \/ (e.cls = "write_tmp" /\ WriteTmp(p) /\ NewUnch)
+    \/ (e.cls = "publish" /\ BPublish(p))
+    \/ (e.cls = "open_bucket_w" /\ BOpenBucketW(p))
+    \/ (e.cls = "append" /\ BAppendRecord(p))
+    \/ (e.cls = "unlink_content" /\ \/ (UnlinkContent(p) /\ NewUnch)
+                                    \/ RfUnlinkContent(p)
+                                    \/ ClearStep(p))
+    \/ (e.cls = "unlink_bucket" /\ (RfUnlinkBucket(p) \/ ClearStep(p)))
+    \/ (e.cls = "symlink" /\ SymlinkContent(p) /\ NewUnch)
+    \/ (e.cls = "failed_effect" /\ Fault(p) /\ NewUnch)
+
+\* (the multi-step bulk deletions of CacacheFSBulk: remove_fully looks the key up when it opens the
+\* bucket for reading - RfLookup; clear takes stock of the cache with its first visible call -
+\* ClearScan; every unlink after that is a ClearStep; the result line is ClearDone)
 
 T2Sys ==
     /\ l <= N2 /\ E.ev = "sys"
-    /\ IF E.cls = "noise"
+    /\ IF E.cls = "noise" /\ pc[E.p] = "c_scan"
+       THEN ClearScan(E.p)
+       ELSE IF E.cls = "noise" /\ pc[E.p] = "rf_look" /\ E.area = "index" /\ E.name \in {"openat", "open", "openat2"}
+       THEN RfLookup(E.p)
+       ELSE IF E.cls = "noise"
        THEN Noise(E.p, E)
-       ELSE Named(E.p, E) /\ (IF E.cls = "failed_effect" THEN TRUE ELSE TmpAgrees(E.p, E.tmpfull))
+       ELSE Named(E.p, E) /\ (IF E.cls \in {"failed_effect", "unlink_content", "unlink_bucket"} THEN TRUE
+                               ELSE TmpAgrees(E.p, E.tmpfull))
     /\ DiskAgrees(E.snap)
     /\ l' = l + 1
 
@@ -133,25 +152,28 @@ T2Sys ==
 \* logged result; a writer must already have finished through its own last action
 T2Result ==
     /\ l <= N2 /\ E.ev = "result"
-    /\ IF pc[E.p] = "done"
+    /\ IF pc[E.p] = "c_del" /\ E.ok
+       THEN ClearDone(E.p)
+       ELSE IF pc[E.p] = "done"
        THEN /\ res[E.p].ok = E.ok
-            /\ UNCHANGED vars
+            /\ UNCHANGED bvars
        ELSE /\ IsReaderOp(op[E.p]) \/ ~E.ok          \* a reader, or an error return
             /\ pc' = [pc EXCEPT ![E.p] = "done"]
             /\ res' = [res EXCEPT ![E.p] = IF E.ok THEN Ok("skipped") ELSE Err("logged")]
             /\ tmpf' = [tmpf EXCEPT ![E.p] = NoFile]
             /\ UNCHANGED <<cf, bex, bk, op, seen, fdc, acc, todo, crashed, nfaults, nstarts, log>>
+            /\ NewUnch
     /\ l' = l + 1
 
 T2Crash ==
     /\ l <= N2 /\ E.ev = "crash"
-    /\ Crash
+    /\ Crash /\ NewUnch
     /\ DiskAgrees(E.snap)
     /\ l' = l + 1
 
 T2End ==
     /\ l <= N2 /\ E.ev = "end"
-    /\ UNCHANGED vars
+    /\ UNCHANGED bvars
     /\ l' = l + 1
 
 T2Next == T2Begin \/ T2Spawn \/ T2Sys \/ T2Result \/ T2Crash \/ T2End
